@@ -91,7 +91,7 @@ func yamlTranslateNode(node *yaml.Node) (any, error) {
 
 		// First see if there's a merge statement, and merge the referenced map(s) into ret.
 		for i := 0; i+1 < len(node.Content); i += 2 {
-			if node.Content[i].Value == "<<" {
+			if yamlIsMergeKey(node.Content[i]) {
 				v2, err := yamlTranslateNode(node.Content[i+1])
 				if err != nil {
 					return nil, err
@@ -106,7 +106,7 @@ func yamlTranslateNode(node *yaml.Node) (any, error) {
 
 		// Next iterate over all the local values of the map.
 		for i := 0; i+1 < len(node.Content); i += 2 {
-			if node.Content[i].Value == "<<" {
+			if yamlIsMergeKey(node.Content[i]) {
 				continue
 			}
 
@@ -155,6 +155,11 @@ func yamlTranslateNode(node *yaml.Node) (any, error) {
 	default:
 		return nil, fmt.Errorf("unknown yaml type: %d (%w)", node.Kind, ErrInvalidType)
 	}
+}
+
+// A merge key is the plain scalar <<; a quoted "<<" is an ordinary string key.
+func yamlIsMergeKey(node *yaml.Node) bool {
+	return node.Kind == yaml.ScalarNode && node.Value == "<<" && node.ShortTag() == "!!merge"
 }
 
 // Merge mapping or list of mappings into a destination mapping, as per https://yaml.org/type/merge.html
